@@ -47,6 +47,7 @@ class MonitoredExecutor(Executor):
         self.pc_trace: List[tuple] = []   # (subroutine id, pc, mnemonic)
         self.meas_log: List[tuple] = []   # (virtual id, outcome)
         self.ret_log: List[tuple] = []    # shared-memory publications at the moment of ret_*
+        self.ret_mismatch: List[str] = []
         self.inflight_phys: set = set()   # ids handed out by the link model for responses not consumed yet
         self._instruction_handlers["meas_basis"] = self._instr_meas_basis
         self._instruction_handlers["breakpoint"] = self._instr_breakpoint
@@ -175,7 +176,22 @@ class MonitoredExecutor(Executor):
             self.ret_log.append((app_id, "reg", str(entry), value))
         else:
             self.ret_log.append((app_id, "arr", getattr(entry, "address", None), list(value) if isinstance(value, list) else value))
-        return super()._update_shared_memory(app_id=app_id, entry=entry, value=value)
+        out = super()._update_shared_memory(app_id=app_id, entry=entry, value=value)
+        # what the host can read right after the ret_* instruction must be what was returned (observed at this moment:
+        # whether the backend aliases or copies the list later is deliberately not judged)
+        try:
+            shm = self._shared_memories[app_id]
+            if isinstance(entry, Register):
+                got = shm.get_register(entry)
+                if got != value:
+                    self.ret_mismatch.append(f"ret_reg {entry}: host reads {got}, returned {value}")
+            elif isinstance(value, list):
+                got = list(shm._get_array(entry.address))
+                if got != list(value):
+                    self.ret_mismatch.append(f"ret_arr @{entry.address}: host reads {got}, returned {list(value)}")
+        except Exception as e:  # noqa
+            self.ret_mismatch.append(f"host cannot read what was returned for {entry}: {type(e).__name__}: {e}")
+        return out
 
     # ---- views for oracles ------------------------------------------------------------------
     def unit_module(self, app_id) -> Optional[list]:
